@@ -1063,8 +1063,15 @@ fiSIntLength(FiSInt i)
 FiSInt
 fiSIntTimesMod(FiSInt a,FiSInt  b,FiSInt m)
 {
-	/*!! Not yet implemented */
-	return 0;
+#ifndef OPT_NoDoubleOps
+	ULong hi, lo;
+
+	if (a >= 0 && b >= 0 && m > 0) {
+		xxTimesDouble(&hi, &lo, (ULong) a, (ULong) b);
+		return (FiSInt) xxModDouble(hi, lo, (ULong) m);
+	}
+#endif
+	return (a * b) % m;
 }
 
 FiSInt
